@@ -255,6 +255,10 @@ func genGroups(t *rapid.T, label string, maxGroups, maxTargets int, badAddr bool
 	for g := 0; g < ng; g++ {
 		gl := fmt.Sprintf("%s-g%d", label, g)
 		gs := grpSpec{Source: fmt.Sprintf("src-%d", g), Labels: genLabels(t, gl+"-labels", 3)}
+		if g > 0 && rapid.IntRange(0, 4).Draw(t, gl+"-sameSource") == 0 {
+			// the SD manager hands over the groups of all providers of a job: two providers may use the same source text
+			gs.Source = out[g-1].Source
+		}
 		nt := rapid.IntRange(1, maxTargets).Draw(t, gl+"-nTargets")
 		for i := 0; i < nt; i++ {
 			tl := fmt.Sprintf("%s-t%d", gl, i)
